@@ -37,7 +37,7 @@ def gen_config(rng: random.Random, pointer_choices=("uint16", "uint32", "uint64"
 def gen_swarm(rng: random.Random):
     """Per-run feature switches (swarm testing): each feature is on in roughly half the runs."""
     feats = ["wide", "float", "char", "wchar", "leb", "enum", "ptr", "array", "expr", "null", "nested", "union", "bits",
-             "anon", "multidim", "alias", "dynunion", "structarray"]
+             "anon", "multidim", "alias", "dynunion", "structarray", "typedef", "nocompile"]
     on = {f: rng.random() < 0.55 for f in feats}
     on["eof"] = rng.random() < 0.15
     return on
@@ -56,6 +56,7 @@ class DefGen:
         self.no_dynamic_union = no_dynamic_union or fixed_only
         self.defines = []
         self.enums = []
+        self.typedefs = []
         self.structs = []
         self.dynamic = {}  # struct name -> bool
         self.allint = {}  # struct name -> bool (usable as null-terminated element)
@@ -84,6 +85,17 @@ class DefGen:
 
     def scalar(self):
         t = self.rng.choice(self.scalar_pool())
+        if self.sw.get("typedef") and self.rng.random() < 0.2:
+            # a user typedef of the scalar (sometimes a chain of two): typedef uint32 T5; typedef T5 T6;
+            have = [td for td in self.typedefs if td["base"] == t]
+            if have and self.rng.random() < 0.6:
+                return self.rng.choice(have)["name"], t
+            nm = self.uid("T")
+            target = t
+            if have and self.rng.random() < 0.4:
+                target = self.rng.choice(have)["name"]
+            self.typedefs.append({"name": nm, "target": target, "base": t})
+            return nm, t
         if self.sw["alias"] and t in ALIASES and self.rng.random() < 0.3:
             return self.rng.choice(ALIASES[t]), t
         return t, t
@@ -323,7 +335,11 @@ class DefGen:
                 self.structs.insert(pos, twin)
                 self.dynamic[twin["name"]] = self.dynamic[src["name"]]
                 self.allint[twin["name"]] = self.allint[src["name"]]
-        return {"defines": self.defines, "enums": self.enums, "structs": self.structs}
+        if self.sw.get("nocompile"):
+            for sd in self.structs:
+                if self.rng.random() < 0.25:
+                    sd["nocompile"] = True  # '#[nocompile]' in front of this top-level definition
+        return {"defines": self.defines, "enums": self.enums, "typedefs": self.typedefs, "structs": self.structs}
 
 
 # ---------------------------------------------------------------- rendering
@@ -349,7 +365,8 @@ def render_struct_body(sd, ind="  "):
 
 
 def render_struct(sd):
-    return f"{sd['kind']} {sd['name']} {{\n{render_struct_body(sd)}}};\n"
+    flag = "#[nocompile]\n" if sd.get("nocompile") else ""
+    return f"{flag}{sd['kind']} {sd['name']} {{\n{render_struct_body(sd)}}};\n"
 
 
 def render_enum(e):
@@ -363,6 +380,8 @@ def render(defs):
         out.append(f"#define {n} {v}\n")
     for e in defs["enums"]:
         out.append(render_enum(e))
+    for td in defs.get("typedefs", []):
+        out.append(f"typedef {td['target']} {td['name']};\n")
     for s in defs["structs"]:
         out.append(render_struct(s))
     return "".join(out)
@@ -534,6 +553,10 @@ def classify(defs, f):
     t = f["type"]
     if t.startswith("struct "):
         t = t[7:]
+    for td in defs.get("typedefs", []):
+        if td["name"] == t:
+            t = td["base"]
+            break
     t = CANON.get(t, t)
     for e in defs["enums"]:
         if e["name"] == t:
